@@ -224,9 +224,11 @@ def lean_audit(prop):
     text = r.stdout
     # parse: "'name' depends on axioms: [a, b]" or "'name' does not depend on any axioms"
     axioms = {}
-    for m in re.finditer(r"'([^']+)' depends on axioms: \[([^\]]*)\]", text.replace("\n", " ")):
+    # (theorem names may themselves end in apostrophes: match up to the LAST quote before the fixed phrase)
+    flat = text.replace("\n", " ")
+    for m in re.finditer(r"'(\S+?)' depends on axioms: \[([^\]]*)\]", flat):
         axioms[m.group(1)] = [a.strip() for a in m.group(2).split(",") if a.strip()]
-    for m in re.finditer(r"'([^']+)' does not depend on any axioms", text):
+    for m in re.finditer(r"'(\S+?)' does not depend on any axioms", flat):
         axioms[m.group(1)] = []
     res["axioms"] = axioms
     good = 0
